@@ -103,6 +103,7 @@ func generate(a lib.Args) ([]input, map[string]interface{}) {
 	g.genTWKB(corpus, a.N)
 	g.genWKT(corpus, a.N)
 	g.genJSON(corpus, a.N)
+	g.genHuge()
 	dist := map[string]interface{}{"classes": g.classes, "corpus_entries": len(corpus)}
 	return g.ins, dist
 }
